@@ -39,6 +39,7 @@ import (
 	"github.com/AdguardTeam/AdGuardDNS/internal/bindtodevice"
 	"github.com/AdguardTeam/AdGuardDNS/internal/dnsserver"
 	"github.com/AdguardTeam/AdGuardDNS/internal/dnsserver/dnsservertest"
+	dnssrvprom "github.com/AdguardTeam/AdGuardDNS/internal/dnsserver/prometheus"
 	"github.com/AdguardTeam/golibs/logutil/slogutil"
 	"github.com/ameshkov/dnscrypt/v2"
 	"github.com/ameshkov/dnsstamps"
@@ -184,6 +185,45 @@ func (m *vc01Metrics) take() (errs []string) {
 	return errs
 }
 
+// vc01Tee is the MetricsListener of every fixture server: the production
+// listener (internal/dnsserver/prometheus, which dnssvc installs into every
+// server) and the harness's own checks.
+type vc01Tee struct {
+	own  *vc01Metrics
+	prod dnsserver.MetricsListener
+}
+
+func (l *vc01Tee) OnRequest(ctx context.Context, info *dnsserver.QueryInfo, rw dnsserver.ResponseWriter) {
+	l.own.OnRequest(ctx, info, rw)
+	l.prod.OnRequest(ctx, info, rw)
+}
+
+func (l *vc01Tee) OnInvalidMsg(ctx context.Context) {
+	l.own.OnInvalidMsg(ctx)
+	l.prod.OnInvalidMsg(ctx)
+}
+
+func (l *vc01Tee) OnError(ctx context.Context, err error) {
+	l.own.OnError(ctx, err)
+	l.prod.OnError(ctx, err)
+}
+
+func (l *vc01Tee) OnPanic(ctx context.Context, v any) {
+	l.own.OnPanic(ctx, v)
+	l.prod.OnPanic(ctx, v)
+}
+
+func (l *vc01Tee) OnQUICAddressValidation(hit bool) {
+	l.own.OnQUICAddressValidation(hit)
+	l.prod.OnQUICAddressValidation(hit)
+}
+
+// vc01ProdListener is created once per process: the production listener
+// registers its collectors with the default prometheus registry.
+var vc01ProdListener = sync.OnceValue(func() dnsserver.MetricsListener {
+	return dnssrvprom.NewServerMetricsListener("verifc01")
+})
+
 // vc01Net is the process-wide fixture.
 type vc01Net struct {
 	metrics          *vc01Metrics
@@ -222,7 +262,7 @@ func vc01Start(t *testing.T) *vc01Net {
 	base := func(proto dnsserver.Protocol, network dnsserver.Network) dnsserver.ConfigBase {
 		return dnsserver.ConfigBase{
 			Name: "test-" + proto.String(), Addr: "127.0.0.1:0", Handler: h, Network: network,
-			Disposer: vc01Poison{}, Metrics: n.metrics, RequestContext: dnsserver.NewTimeoutContextConstructor(time.Minute),
+			Disposer: vc01Poison{}, Metrics: &vc01Tee{own: n.metrics, prod: vc01ProdListener()}, RequestContext: dnsserver.NewTimeoutContextConstructor(time.Minute),
 		}
 	}
 
@@ -888,7 +928,7 @@ func vc01Attempt(f func() (ref.Result, error)) (r ref.Result, err error) {
 func vc01SocketCase(t *rapid.T, st *vstat.Stats, n *vc01Net, in ref.Input) {
 	wire := in.Wire
 	c := ref.Classify(wire)
-	classes := append(c.Classes(), "gen-"+strings.SplitN(in.Gen, ":", 2)[0])
+	classes := append(c.Classes(), "gen-"+strings.SplitN(in.Gen, ":", 2)[0], "production-metrics-listener")
 	fulls := map[string]string{}
 	order := []string{}
 	if vc01Inconclusive {
@@ -927,6 +967,22 @@ func vc01SocketCase(t *rapid.T, st *vstat.Stats, n *vc01Net, in ref.Input) {
 		if cc.NonTrivial() {
 			st.NonTrivial(tr.Name + "|" + string(cc.Wire))
 		}
+	}
+
+	// attemptMust is vc01Attempt for connection-oriented transports: the servers
+	// have wall-clock read time-outs of their own (2 s for the first TCP / DoT /
+	// DNSCrypt read and for a DoQ stream), after which a slow client is cut off
+	// without an answer (DoQ: with a protocol error).  On a loaded machine that
+	// is not a verdict: an input that must be answered and got nothing is sent
+	// once more on a fresh connection, and only the second outcome is judged.
+	attemptMust := func(tr ref.Transport, cc *ref.Case, f func() (ref.Result, error)) (ref.Result, error) {
+		r, err := vc01Attempt(f)
+		if k, _, _ := cc.Expect(tr); err == nil && k == ref.MustReply && len(r.Msgs) == 0 {
+			classes = append(classes, tr.Name+":resent-after-empty-outcome")
+			r, err = vc01Attempt(f)
+		}
+
+		return r, err
 	}
 
 	// foreignOnly applies the weakest check where the input is outside the
@@ -980,13 +1036,24 @@ func vc01SocketCase(t *rapid.T, st *vstat.Stats, n *vc01Net, in ref.Input) {
 		classes = append(classes, "tcp-split-write")
 	}
 
-	r, err := vc01Attempt(func() (ref.Result, error) { return n.tcpRaw(n.tcpAddr, vc01Frame(wire), split, vc01Identity) })
+	r, err := attemptMust(ref.TCP, c, func() (ref.Result, error) { return n.tcpRaw(n.tcpAddr, vc01Frame(wire), split, vc01Identity) })
 	judge(ref.TCP, c, r, err, ref.CheckOpts{}, true)
-	r, err = vc01Attempt(func() (ref.Result, error) { return n.dotRaw(vc01Frame(wire), split) })
+	r, err = attemptMust(ref.DoT, c, func() (ref.Result, error) { return n.dotRaw(vc01Frame(wire), split) })
 	judge(ref.DoT, c, r, err, ref.CheckOpts{}, true)
 
 	// The second production path into ServerDNS: interface listeners.
-	if n.btdAddr != "" {
+	// A query whose answer is written twice (failed write, then SERVFAIL) makes
+	// the bind-to-device listener return its read buffer to the pool twice,
+	// after which unrelated later datagrams share a buffer (finding
+	// bindtodevice-read-body-returned-twice, judged by TestVerifC01BTDReadBuffer
+	// on a server of its own).  It must not poison this shared fixture, where
+	// the damage could not be attributed.
+	btdSafe := !(c.Verdict == ref.VAccept && c.Kind == ref.KHuge)
+	if n.btdAddr != "" && !btdSafe {
+		classes = append(classes, "udp-btd:double-write-trigger-kept-off-shared-fixture")
+	}
+
+	if n.btdAddr != "" && btdSafe {
 		if len(wire) <= dns.MinMsgSize {
 			r, err = vc01Attempt(func() (ref.Result, error) {
 				return vc01Datagram(n.btdAddr, wire, expectsReply(ref.UDP), vc01Identity, vc01Identity)
@@ -994,7 +1061,7 @@ func vc01SocketCase(t *rapid.T, st *vstat.Stats, n *vc01Net, in ref.Input) {
 			judge(ref.UDP.Named("udp-btd"), c, r, err, ref.CheckOpts{}, true)
 		}
 
-		r, err = vc01Attempt(func() (ref.Result, error) { return n.tcpRaw(n.btdAddr, vc01Frame(wire), split, vc01Identity) })
+		r, err = attemptMust(ref.TCP, c, func() (ref.Result, error) { return n.tcpRaw(n.btdAddr, vc01Frame(wire), split, vc01Identity) })
 		judge(ref.TCP.Named("tcp-btd"), c, r, err, ref.CheckOpts{}, true)
 	}
 
@@ -1025,7 +1092,7 @@ func vc01SocketCase(t *rapid.T, st *vstat.Stats, n *vc01Net, in ref.Input) {
 		}
 
 		for _, dst := range []string{"127.0.0.2", "::1"} {
-			r, err = vc01Attempt(func() (ref.Result, error) {
+			r, err = attemptMust(ref.TCP, c, func() (ref.Result, error) {
 				return n.tcpRaw(net.JoinHostPort(dst, strconv.Itoa(n.dualPort)), vc01Frame(wire), split, vc01Identity)
 			})
 			judge(ref.TCP.Named("tcp-dualstack"), c, r, err, ref.CheckOpts{}, false)
@@ -1089,7 +1156,12 @@ func vc01SocketCase(t *rapid.T, st *vstat.Stats, n *vc01Net, in ref.Input) {
 		prefix = max(0, len(wire)+rapid.SampledFrom([]int{-1, 1, 2, -12}).Draw(t, "prefixDelta"))
 	}
 
-	r, err = vc01Attempt(func() (ref.Result, error) { return n.quic(wire, prefix) })
+	if prefix == len(wire) {
+		r, err = attemptMust(ref.DoQ, c, func() (ref.Result, error) { return n.quic(wire, prefix) })
+	} else {
+		r, err = vc01Attempt(func() (ref.Result, error) { return n.quic(wire, prefix) })
+	}
+
 	if prefix == len(wire) {
 		judge(ref.DoQ, c, r, err, ref.CheckOpts{}, true)
 	} else {
@@ -1225,9 +1297,20 @@ func vc01SocketCase(t *rapid.T, st *vstat.Stats, n *vc01Net, in ref.Input) {
 				stream = append(stream, vc01Frame(bc.Wire)...)
 			}
 
-			r, err = vc01Attempt(func() (ref.Result, error) { return n.tcpRaw(n.tcpAddr, stream, psplit, vc01Identity) })
+			again := func(tr ref.Transport, f func() (ref.Result, error)) (ref.Result, error) {
+				r, err := vc01Attempt(f)
+				if err == nil && len(r.Msgs) < len(streamCases) {
+					// Cut off by the server's read time-out on a loaded machine?
+					classes = append(classes, tr.Name+":resent-after-empty-outcome")
+					r, err = vc01Attempt(f)
+				}
+
+				return r, err
+			}
+
+			r, err = again(ref.TCP, func() (ref.Result, error) { return n.tcpRaw(n.tcpAddr, stream, psplit, vc01Identity) })
 			match(ref.TCP, streamCases, r, err)
-			r, err = vc01Attempt(func() (ref.Result, error) { return n.dotRaw(stream, psplit) })
+			r, err = again(ref.DoT, func() (ref.Result, error) { return n.dotRaw(stream, psplit) })
 			match(ref.DoT, streamCases, r, err)
 		}
 
@@ -1323,19 +1406,35 @@ func vc01SocketCase(t *rapid.T, st *vstat.Stats, n *vc01Net, in ref.Input) {
 
 		if len(normals) >= 2 {
 			lateBurst(ref.UDP, n.udpAddr)
-			if n.btdAddr != "" {
+			hugeAmong := false
+			for _, cc := range normals {
+				hugeAmong = hugeAmong || cc.Kind == ref.KHuge
+			}
+
+			if n.btdAddr != "" && !hugeAmong {
 				lateBurst(ref.UDP.Named("udp-btd"), n.btdAddr)
 			}
 		}
 
-		if both(ref.DoQ) {
+		// DoQ answers a response it cannot frame (over 64 KiB after padding) by
+		// closing the whole CONNECTION with a protocol error, which also ends the
+		// other stream in flight; such a pair cannot be attributed per stream.
+		if both(ref.DoQ) && cs[0].Kind != ref.KHuge && cs[1].Kind != ref.KHuge {
 			var rs []ref.Result
-			_, err = vc01Attempt(func() (ref.Result, error) {
-				var qerr error
-				rs, qerr = n.quicRaw([][]byte{vc01Frame(wire), vc01Frame(w2)})
+			for try := 0; try < 2; try++ {
+				_, err = vc01Attempt(func() (ref.Result, error) {
+					var qerr error
+					rs, qerr = n.quicRaw([][]byte{vc01Frame(wire), vc01Frame(w2)})
 
-				return ref.Result{}, qerr
-			})
+					return ref.Result{}, qerr
+				})
+				if err != nil || (len(rs) == 2 && len(rs[0].Msgs) > 0 && len(rs[1].Msgs) > 0) {
+					break
+				}
+
+				classes = append(classes, "doq:resent-after-empty-outcome")
+			}
+
 			if err != nil {
 				fail("doq", err)
 			}
@@ -1388,7 +1487,7 @@ func vc01SocketCase(t *rapid.T, st *vstat.Stats, n *vc01Net, in ref.Input) {
 		foreignOnly("dnscrypt-udp", c, r, err)
 	}
 
-	r, err = vc01Attempt(func() (ref.Result, error) {
+	r, err = attemptMust(ref.DNSCryptTCP, c, func() (ref.Result, error) {
 		enc, eerr := n.cryptEnc(wire)
 		if eerr != nil {
 			return ref.Result{}, fmt.Errorf("harness: encrypting: %w", eerr)
@@ -1546,9 +1645,9 @@ func vc01SocketCase(t *rapid.T, st *vstat.Stats, n *vc01Net, in ref.Input) {
 	if c.Verdict != ref.VAccept {
 		sw, _ := vc01Sentinel(wire)
 		sc := ref.Classify(sw)
-		r, err = vc01Attempt(func() (ref.Result, error) { return n.tcp(n.tcpAddr, sw, vc01Identity) })
+		r, err = attemptMust(ref.TCP, sc, func() (ref.Result, error) { return n.tcp(n.tcpAddr, sw, vc01Identity) })
 		judge(ref.TCP.Named("tcp"), sc, r, err, ref.CheckOpts{}, false)
-		r, err = vc01Attempt(func() (ref.Result, error) { return n.quic(sw, len(sw)) })
+		r, err = attemptMust(ref.DoQ, sc, func() (ref.Result, error) { return n.quic(sw, len(sw)) })
 		judge(ref.DoQ, sc, r, err, ref.CheckOpts{}, false)
 		classes = append(classes, "survival-probe")
 	}
@@ -1564,7 +1663,7 @@ func vc01SocketCase(t *rapid.T, st *vstat.Stats, n *vc01Net, in ref.Input) {
 }
 
 func TestVerifC01Sockets(t *testing.T) {
-	rule := "rapid inputs (structured valid queries, structured unacceptable messages, byte-level corruptions; see inpkg.accept) sent by real clients over loopback to servers started through dnsservertest: UDP, TCP, DoT, DoH h2 GET+POST, plain-HTTP/1.1 DoH, h3 (every case in thorough, 1/8 in quick), DoQ (correct and wrong length prefix), DNSCrypt UDP+TCP, a plain-DNS server on the dual-stack wildcard [::]:port queried from unconnected IPv4 and IPv6 sockets at 127.0.0.1, 127.0.0.2, 127.0.0.7 and ::1 (the answer must come from the address the query was sent to) and over TCP, UDP bursts with 1-3 queries whose answer is written with an expired context in flight among the normal ones (also through the bind-to-device path), a second plain-DNS server fed by a bindtodevice.Manager bound to lo (UDP+TCP, the interface-listener path), JSON API with every documented parameter drawn independently in all accepted spellings (name with/without dot, type/qc absent, empty, number, mnemonic; cd/do/sde absent, empty, 0/false/False, 1/true/True; one invalid value sometimes; ct) incl. ct=dns-message, the query the handler was given compared with what the client expressed, and the wire answer compared with that to the equivalent wire-format POST; servers configured as the real stack does (poisoning disposer, reading metrics listener, deadline contexts, handler requiring ServerInfo/RequestInfo); TCP/DoT frames written in two segments at drawn offsets; POST bodies without content-length (chunked); decoy parameters of the other DoH encodings; framing faults (short / empty frame, two queries in one DoQ stream, two dns parameters, PUT); for half of the valid cases a near miss (one component changed) is sent pipelined with the input on one TCP and one DoT connection, one UDP socket, two DoQ streams in flight and two concurrent h2 requests, replies matched as a multiset; oracle = documented per-transport treatment + reference handler + pairwise agreement of complete answers + survival probe after unacceptable input; non-trivial = accepted query with non-empty / non-NOERROR / absent reference answer or unacceptable input >= 12 octets; distinct by (transport, wire bytes)"
+	rule := "rapid inputs (structured valid queries, structured unacceptable messages, byte-level corruptions; see inpkg.accept) sent by real clients over loopback to servers started through dnsservertest: UDP, TCP, DoT, DoH h2 GET+POST, plain-HTTP/1.1 DoH, h3 (every case in thorough, 1/8 in quick), DoQ (correct and wrong length prefix), DNSCrypt UDP+TCP, a plain-DNS server on the dual-stack wildcard [::]:port queried from unconnected IPv4 and IPv6 sockets at 127.0.0.1, 127.0.0.2, 127.0.0.7 and ::1 (the answer must come from the address the query was sent to) and over TCP, UDP bursts with 1-3 queries whose answer is written with an expired context in flight among the normal ones (also through the bind-to-device path), a second plain-DNS server fed by a bindtodevice.Manager bound to lo (UDP+TCP, the interface-listener path), JSON API with every documented parameter drawn independently in all accepted spellings (name with/without dot, type/qc absent, empty, number, mnemonic; cd/do/sde absent, empty, 0/false/False, 1/true/True; one invalid value sometimes; ct) incl. ct=dns-message, the query the handler was given compared with what the client expressed, and the wire answer compared with that to the equivalent wire-format POST; servers configured as the real stack does (poisoning disposer, the PRODUCTION prometheus.ServerMetricsListener chained with a reading metrics listener, deadline contexts, handler requiring ServerInfo/RequestInfo); TCP/DoT frames written in two segments at drawn offsets; POST bodies without content-length (chunked); decoy parameters of the other DoH encodings; framing faults (short / empty frame, two queries in one DoQ stream, two dns parameters, PUT); for half of the valid cases a near miss (one component changed) is sent pipelined with the input on one TCP and one DoT connection, one UDP socket, two DoQ streams in flight and two concurrent h2 requests, replies matched as a multiset; oracle = documented per-transport treatment + reference handler + pairwise agreement of complete answers + survival probe after unacceptable input; non-trivial = accepted query with non-empty / non-NOERROR / absent reference answer or unacceptable input >= 12 octets; distinct by (transport, wire bytes)"
 	required := []string{"verdict-accept", "undecodable-past-header", "verdict-response-bit", "verdict-notimp", "verdict-formerr", "kind-handler-error",
 		"kind-silent", "kind-large", "truncated-on-udp", "cross-transport-compared", "json", "doq:no-message", "doq:must-reply",
 		"dnscrypt-udp:must-reply", "dnscrypt-tcp:must-reply", "doh-h2-get:must-reply", "doh-h2-post:must-reply", "dot:must-reply",
@@ -1572,7 +1671,8 @@ func TestVerifC01Sockets(t *testing.T) {
 		"pipelined-near-miss", "tcp:pair", "dot:pair", "udp:pair", "doq:pair", "doh-h2:pair", "tcp-split-write", "doh-body-without-length",
 		"doh-decoy-params", "req-padding+keepalive", "root-name", "doq:fallback-servfail",
 		"json-do-only", "json-sde-only", "json-cd-only", "json-do+sde", "json-invalid-param", "json-type-default", "json-type-mnemonic",
-		"json-vs-wire-compared", "udp:normal-query-in-flight-with-expired-context-write"}
+		"json-vs-wire-compared", "udp:normal-query-in-flight-with-expired-context-write", "production-metrics-listener",
+		"first-write-fails-unencodable", "kind-huge", "formerr-no-question"}
 	n := vc01Start(t)
 	if n.btdAddr != "" {
 		required = append(required, "udp-btd:must-reply", "tcp-btd:must-reply", "udp-btd:normal-query-in-flight-with-expired-context-write")
@@ -1596,5 +1696,165 @@ func TestVerifC01Sockets(t *testing.T) {
 	})
 	if errs := n.metrics.take(); len(errs) > 0 {
 		t.Fatalf("metrics/disposer after the last case: %s", strings.Join(errs, "\n"))
+	}
+}
+
+// ---------------------------------------------------------------------------
+// bind-to-device listener: the read buffer of a session that is answered twice
+
+// vc01KnownBTDBody is the finding: interfaceListener.writeToUDPConn returns the
+// session's read body to the pool after EVERY write for the session; a session
+// that is written to twice (the first write fails, the server then writes its
+// SERVFAIL) puts the same buffer into the pool twice, two later datagrams are
+// read into one buffer, and the earlier of them is processed with the bytes of
+// the later one: one query is answered twice, the other not at all.
+const vc01KnownBTDBody = "bindtodevice-read-body-returned-twice"
+
+// vc01Collect sends wires and a sentinel from one fresh socket and returns what
+// comes back until the sentinel's answer plus a grace, or until wait has passed
+// (a missing answer is not judged here).
+func vc01Collect(addr string, wires [][]byte, wait time.Duration) (msgs []*dns.Msg, err error) {
+	c, err := net.Dial("udp", addr)
+	if err != nil {
+		return nil, err
+	}
+	defer c.Close()
+
+	sw, sid := vc01Sentinel(wires[0])
+	for _, w := range append(append([][]byte{}, wires...), sw) {
+		if _, err = c.Write(w); err != nil {
+			return nil, err
+		}
+	}
+
+	buf := make([]byte, 65536)
+	_ = c.SetReadDeadline(time.Now().Add(wait))
+	for {
+		nr, rerr := c.Read(buf)
+		if rerr != nil {
+			return msgs, nil
+		}
+
+		m := &dns.Msg{}
+		if uerr := m.Unpack(buf[:nr]); uerr != nil {
+			return msgs, fmt.Errorf("undecodable datagram from the server: %w", uerr)
+		}
+
+		msgs = append(msgs, m)
+		if vc01IsSentinel(m, sid) {
+			_ = c.SetReadDeadline(time.Now().Add(30 * time.Millisecond))
+		}
+	}
+}
+
+func TestVerifC01BTDReadBuffer(t *testing.T) {
+	rule := "bounded history on a plain-DNS server of its own behind a real bindtodevice.Manager bound to lo: (1) 100 bursts of 4 distinct queries of decreasing length plus a sentinel on one socket: no query may be answered twice; (2) 5 sessions that are written to twice (a 65.5 KB answer that the UDP socket refuses, then the server's SERVFAIL); (3) up to 400 (thorough 3000) more bursts: still no query may be answered twice; a missing answer is not judged (time-outs are not verdicts); non-trivial = bursts after the double-write sessions; distinct by burst number"
+	n := &vc01Net{metrics: &vc01Metrics{}}
+	n.startBTD(t, dnsserver.ConfigBase{
+		Name: "test-dns", Addr: "127.0.0.1:0", Handler: vc01SockHandler(),
+		Disposer: vc01Poison{}, Metrics: n.metrics, RequestContext: dnsserver.NewTimeoutContextConstructor(time.Minute),
+	})
+	if n.btdAddr == "" {
+		st := vstat.New("C01", "sockets.btd-read-buffer", rule)
+		st.Extra("bindtodevice-absent", n.btdWhy)
+		st.Finish(t)
+		fmt.Println("C01 bind-to-device part absent:", n.btdWhy)
+
+		return
+	}
+
+	st := vstat.New("C01", "sockets.btd-read-buffer", rule, "baseline-burst", "double-write-session", "burst-after-double-write")
+	st.Finish(t)
+
+	mk := func(name string, id uint16, udpSize uint16, pad int) []byte {
+		m := (&dns.Msg{}).SetQuestion(name, dns.TypeA)
+		m.Id = id
+		if udpSize > 0 || pad > 0 {
+			m.SetEdns0(max(udpSize, 1232), false)
+			if pad > 0 {
+				opt := m.IsEdns0()
+				opt.Option = append(opt.Option, &dns.EDNS0_LOCAL{Code: 65003, Data: make([]byte, pad)})
+			}
+		}
+
+		b, _ := m.Pack()
+
+		return b
+	}
+
+	// A later, shorter datagram read into the buffer of an earlier, longer one
+	// still decodes (trailing octets are ignored), so the damage shows as a
+	// second answer to the later query.
+	burst := func(i int) (dupe string, err error) {
+		var wires [][]byte
+		for j, pad := range []int{300, 220, 140, 60} {
+			wires = append(wires, mk(fmt.Sprintf("k0.b%d-%d.test.", i, j), uint16(8*i+j), 0, pad))
+		}
+
+		msgs, err := vc01Collect(n.btdAddr, wires, 2*time.Second)
+		if err != nil {
+			return "", err
+		}
+
+		seen := map[string]int{}
+		for _, m := range msgs {
+			k := fmt.Sprintf("id %d %v", m.Id, m.Question)
+			seen[k]++
+			if seen[k] > 1 {
+				dupe = fmt.Sprintf("%s was answered %d times (answers received: %d for 4 queries and the sentinel)", k, seen[k], len(msgs))
+			}
+		}
+
+		return dupe, nil
+	}
+
+	for i := 0; i < 100; i++ {
+		dupe, err := burst(i)
+		st.Case("", "baseline-burst")
+		if err != nil {
+			fmt.Println("VERIF-INCONCLUSIVE:", err)
+			t.FailNow()
+		}
+
+		if dupe != "" {
+			t.Fatalf("baseline burst %d: %s", i, dupe)
+		}
+	}
+
+	for i := 0; i < 5; i++ {
+		msgs, err := vc01Collect(n.btdAddr, [][]byte{mk("k11.test.", uint16(60000+i), 65535, 0)}, 5*time.Second)
+		if err != nil {
+			fmt.Println("VERIF-INCONCLUSIVE:", err)
+			t.FailNow()
+		}
+
+		for _, m := range msgs {
+			if m.Id == uint16(60000+i) && m.Rcode == dns.RcodeServerFailure {
+				st.Case("", "double-write-session")
+			}
+		}
+	}
+
+	for i := 0; i < vstat.Scale(400, 3000); i++ {
+		dupe, err := burst(1000 + i)
+		st.Case(fmt.Sprintf("after-%d", i), "burst-after-double-write")
+		if err != nil {
+			fmt.Println("VERIF-INCONCLUSIVE:", err)
+			t.FailNow()
+		}
+
+		if dupe != "" {
+			if st.Known(vc01KnownBTDBody) {
+				st.Class("known-finding")
+
+				return
+			}
+
+			t.Fatalf("history: 100 bursts without a duplicate; 5 x [query k11.test. A, EDNS size 65535 -> first write refused by the socket (message too long), SERVFAIL written: two writes for one session]; burst %d of 4 queries of 369/289/209/129 octets and a sentinel on one socket: %s", i, dupe)
+		}
+	}
+
+	if errs := n.metrics.take(); len(errs) > 0 {
+		t.Fatalf("metrics/disposer: %s", strings.Join(errs, "\n"))
 	}
 }
